@@ -195,8 +195,65 @@ def _from_creation(fn, name_expr, at, creation) -> bool:
     return any(k == "expr" and pl is creation.ast for k, pl in value_sources(fn, name_expr, at))
 
 
+def check_adopted(ctx, rule_prefix="link"):
+    """A configuration object handed in by the caller (assigned to a sub-configuration field, appended to a list of
+    configurations) is adopted: _parent (and _key; _container for list items) are set before it is stored / returned."""
+    an, model = ctx.an, ctx.model
+    from engine.defuse import reaching_defs
+    Config = model.cls("Config")
+    targets = [model.method("Config", "_set_value")]
+    for c in model.classes.values():
+        if c.node is not None and (c.is_subclass_of("list") or c.is_subclass_of("dict")) and "_validate" in c.methods:
+            targets.append(c.methods["_validate"])
+    nsites = 0
+    for fn in targets:
+        g = an.cfg(fn)
+        rd = reaching_defs(fn)
+        ft = an.ft(fn)
+        params = [a.arg for a in fn.params if a.arg != fn.self_name]
+        for p in params:
+            # is p ever narrowed to a configuration?
+            tests = [t for t in g.nodes if t.kind == "test" and isinstance(t.ast, ast.Call) and isinstance(t.ast.func, ast.Name)
+                     and t.ast.func.id == "isinstance" and isinstance(t.ast.args[0], ast.Name) and t.ast.args[0].id == p
+                     and "Config" in (ft.class_spec(t.ast.args[1], {}) or [])]
+            if not tests:
+                continue
+            # uses: stored into _data, or handed back (proxy validators)
+            uses = []
+            for n in g.nodes:
+                if n.kind == "assign" and isinstance(n.ast, ast.Assign) and any(
+                        isinstance(t, ast.Subscript) and isinstance(t.value, ast.Attribute) and t.value.attr == "_data" for t in n.ast.targets):
+                    if isinstance(n.ast.value, ast.Name) and any(d.kind == "param" and d.name == p for d in rd.reaching(n, n.ast.value.id)) \
+                            or (isinstance(n.ast.value, ast.Name) and n.ast.value.id == p):
+                        uses.append(("stored", n))
+                if n.kind == "return" and fn.name == "_validate" and isinstance(n.ast.value, ast.Name):
+                    srcs = value_sources(fn, n.ast.value, n)
+                    if any(k == "param" and pl == p for k, pl in srcs):
+                        uses.append(("handed to the container", n))
+            wanted = ["_parent", "_key"] + (["_container"] if fn.name == "_validate" else [])
+            for what, u in uses:
+                nsites += 1
+                for attr in wanted:
+                    links = {m for m in g.nodes if m.kind == "assign" and isinstance(m.ast, ast.Assign) and any(
+                        isinstance(t, ast.Attribute) and t.attr == attr and isinstance(t.value, ast.Name) and t.value.id == p for t in m.ast.targets)}
+                    redefs = {m for m in g.nodes if any(d.name == p for d in rd.defs_at.get(m, []))}
+                    # only paths on which p is a configuration: they take the True edge of one of the tests
+                    bad = None
+                    for t in tests:
+                        for s2, lbl in t.succ:
+                            if lbl is True and s2 not in links and s2 not in redefs:
+                                bad = bad or g.path(s2, lambda x, u=u: x is u, may_raise=lambda x: False,
+                                                    stop=lambda x: (x in links or x in redefs) and x is not u)
+                    ctx.ob("%s.adopted" % rule_prefix, fn, "%s.%s set before the configuration is %s" % (p, attr, what), bad is None,
+                           "a configuration handed in is given %s before it is %s" % (attr, what) if bad is None else
+                           "a configuration handed in by the caller is %s without %s being set: key files, error paths and item positions "
+                           "below it resolve from the wrong place" % (what, attr), node=u)
+    ctx.need(nsites >= 2, "no adoption site found (assigning / appending configuration objects): vanished anchors")
+
+
 def check_links(ctx, rule_prefix="link", need_container=False, need_key=False):
     an = ctx.an
+    check_adopted(ctx, rule_prefix)
     sites = sub_config_sites(an)
     ctx.need(len(sites) >= 3, "fewer than 3 sub-configuration creation sites found (%d): vanished anchors" % len(sites))
     for fn, n, var, uses in sites:
